@@ -317,13 +317,7 @@ def run(cx):
     for m in (pm, em, am):
         cx.consulted(m)
     cx.explanation = (
-        "the expression translator is evaluated on every operator/chain/nesting shape and the emitted C++ is parsed by clang; its "
-        "typed tree must be the Python tree with each operator mapped to a C++ operator of the same meaning (unsound rows are "
-        "itemised known findings); every IR class the parser can build has an emitter arm; every arm appends on every path or "
-        "leaves through one of a fixed list of guards; child blocks are emitted in declaration order with a header per branch; "
-        "statement lists only grow by append; control-flow headers of extracted sketches have Python's structure; tuple "
-        "assignment is two-phase; the parser's dispatch loops account for every statement (shared with C07).  Value equality of "
-        "traces (16-bit int, float printing) is not decided."
+        "the expression translator is evaluated on every operator/chain/nesting shape and the emitted C++ is parsed by clang (typed tree = Python tree under an operator oracle; unsound rows are itemised known findings). Everything else is decided by evaluation in the checker's interpreters: every IR class x field variant must change the emitted sketch; if/elif/else emptiness patterns, while/for/try shapes; tuple assignment, global initialisers and flow-dependent values by interpreting the parsed IR against CPython's execution of the same script (scripted sensor, both outcomes); the list helper templates with C semantics and a tracked heap on every list of <= 4 elements; every statement of a corpus is accounted for in four contexts. Value equality of traces for arbitrary programs (16-bit int, float printing) is not decided."
     )
     cls, fields = pe.ir_classes()
     tce = pm.func("_to_c_expr")
